@@ -364,6 +364,34 @@ func c07(c *Ctx) {
 			c.R.Unknown(load.FuncName(ssaS)+": claim status store", c.pos(ssaS.Pos()), "not found")
 		}
 	}
+	// the options of merge() compose: each one sets its own field of the config and leaves the others
+	// (an option that resets the config discards the override the status merge is called with)
+	for _, on := range []string{"withSrcFilter", "withMergeOptions"} {
+		of := c.fn(pkgClaim, on)
+		if of == nil {
+			continue
+		}
+		for _, g := range closures(of) {
+			if g == of || len(g.Params) != 1 {
+				continue
+			}
+			fields, whole := 0, false
+			for _, b := range g.Blocks {
+				for _, in := range b.Instrs {
+					st, ok := in.(*ssa.Store)
+					if !ok {
+						continue
+					}
+					if _, isField := st.Addr.(*ssa.FieldAddr); isField && flow.Root(st.Addr) == ssa.Value(g.Params[0]) {
+						fields++
+					} else if st.Addr == ssa.Value(g.Params[0]) {
+						whole = true
+					}
+				}
+			}
+			c.R.Check(fields == 1 && !whole, load.FuncName(of)+": sets its own field only", c.pos(g.Pos()), "the option stores one field of the merge config", "the option overwrites the merge config (or more than its own field): options given before it are lost")
+		}
+	}
 	if csaS != nil {
 		found := false
 		for _, m := range calls(csaS, xp+pkgClaim+".merge") {
